@@ -27,6 +27,8 @@
     declarative reading of the magic lookups and ray monotonicity in the occupancy).
   The harness additionally compares the two sequences themselves on every input.
 -/
+import ChessVerif.Model.Guards.Heur
+import ChessVerif.Model.Guards.See
 import ChessVerif.Proofs.SeeLoop
 import ChessVerif.Proofs.SeeLegal
 import ChessVerif.Proofs.SeeGeom
